@@ -27,7 +27,7 @@ VARIABLES
     owed,    \* [Id -> scope]   scope \in {<<"op">>, <<"val",h>>, <<"caller">>}
     op,      \* the call in flight, or NoOp
     heap,    \* [Block -> [size, align]]  live heap blocks (alloc feature)
-    cfg      \* [mode |-> "strict"|"lenient", ety |-> "tk"|"plain"]
+    cfg      \* [mode |-> "strict"|"lenient", ety |-> "tk"|"zst"|"plain"|"plz"]
 
 gaVars == <<life, pool, loose, owed, op, heap, cfg>>
 
@@ -35,7 +35,7 @@ Restrict(f, S) == [x \in S |-> f[x]]
 NoOp == [name |-> "none"]
 Idle == op.name = "none"
 Tracked == cfg.ety \in {"tk", "zst"}
-Anonymous == cfg.ety = "zst"      \* zero-sized elements carry no identity in the log
+Anonymous == cfg.ety \in {"zst", "plz"}      \* zero-sized elements carry no identity in the log ("plz": no destructor either)
 SetMax(S) == CHOOSE x \in S : \A y \in S : y <= x
 SetMin(S) == CHOOSE x \in S : \A y \in S : x <= y
 NewId == IF DOMAIN life = {} THEN 1 ELSE SetMax(DOMAIN life) + 1
